@@ -102,7 +102,7 @@ def run_contract_task(task):
                 except OutsideSubset as e:
                     # keep the obligations of the paths explored so far (bounded search, any refutation found is real)
                     out["refute_error"] = str(e)
-                    fi_ = repo.func(fq)
+                    fi_ = repo.func(fq.split("#")[0])
                     summ2 = {"func": fq, "paths": 0, "outcomes": [], "obligations": len(eng2.obligs), "spec_warnings": [], "sha": fi_.sha() if fi_ else "", "span": fi_.span() if fi_ else (0, 0), "file": fi_.module.path if fi_ else ""}
                 out["refute_summary"] = summ2
                 if out["summary"] is None:
